@@ -3,6 +3,7 @@ import CacheModel.Invalidator
 import CacheModel.Index
 import CacheModel.Transfer
 import CacheModel.FootprintTable
+import CacheModel.Linz
 import CacheModel.DriverUtil
 
 /- Driver engines for the Invalidator (`iv`), the InvalidationIndex (`ix`) and the gob types hash (`gh`). -/
@@ -84,6 +85,47 @@ def ghXor (arg : String) : Option String := do
     | _ => none)
   let fp : Nat → BitVec 64 := fun t => BitVec.ofNat 64 (((items.find? (·.1 == t)).map (·.2)).getD 0)
   pure (toString (typesHash fp (items.map (·.1))).toNat)
+
+/-! ### linearizability: `lz check <init> <event>…` with event = id;op;res;inv;ret -/
+
+def parseLOp (s : String) : Option Linz.LOp :=
+  match s.splitOn ":" with
+  | ["w", k, v, e] => do let k ← parseNat k; let v ← parseNat v; let e ← parseBool e; pure (.write k v e)
+  | ["r", k] => (parseNat k).map .read
+  | ["d", k] => (parseNat k).map .delete
+  | ["xa"] => some .expireAll
+  | ["da"] => some .deleteAll
+  | ["cl"] => some .cleanup
+  | _ => none
+
+def parseLRes (s : String) : Option Linz.LRes :=
+  match s.splitOn ":" with
+  | ["unit"] => some .unit
+  | ["miss"] => some .miss
+  | ["hit", v] => (parseNat v).map .hit
+  | ["exp", v] => (parseNat v).map .exp
+  | ["ok"] => some .ok
+  | ["nf"] => some .notFound
+  | _ => none
+
+def parseEvent (s : String) : Option Linz.Event :=
+  match s.splitOn ";" with
+  | [id, op, res, inv, ret] => do
+    let id ← parseNat id; let op ← parseLOp op; let res ← parseLRes res; let inv ← parseNat inv; let ret ← parseNat ret
+    pure { id, op, res, inv, ret }
+  | _ => none
+
+def lzCheck (init : String) (evs : List String) : Option String := do
+  let s0 : Store ← (if init == "-" then some {} else
+    match init.splitOn ":" with
+    | [k, v, e] => do
+      let k ← parseNat k; let v ← parseNat v; let e ← parseBool e
+      pure (({} : Store).writeCore Linz.slotHash k (some v) (if e then 5 else 0) false)
+    | _ => none)
+  let events ← evs.mapM parseEvent
+  match Linz.linearizable s0 events with
+  | some w => pure s!"lin {showNatList w}"
+  | none => pure (if Linz.searchLoose (events.length + 1) s0 events then "notlin cleanup-deleted-live-entry" else "notlin")
 
 /-- `fp racy`: the unprotected conflicting pairs the footprint table predicts, as `loc:signature`. -/
 def fpRacy : String :=
